@@ -6,5 +6,5 @@ From Coq Require Import Extraction ExtrOcamlBasic.
 From GI Require Import Par.ParWork Par.ParCache Par.ParCacheProofs.
 Extraction Language OCaml.
 Extraction "extracted/par/model.ml" Byte.of_N Byte.to_N
-  step run init_state enabled all_done phi safe_state
+  step run init_state enabled all_done phi safe_state wakeup_ok
   cstep crun cinit cenabled all_idle invisible psi kcL.
